@@ -98,33 +98,47 @@ package sctp
 //@   requires#len len(raw) >= 4
 //@   safety C03
 //@ func paramChunkList.unmarshal
+//@   ensures#self result1 == nil ==> ifaceIs(result0, c) && c.paramHeader.len >= 4 && c.paramHeader.len <= len(raw)
 //@   safety C03
 //@ func paramECNCapable.unmarshal
+//@   ensures#self result1 == nil ==> ifaceIs(result0, r) && r.paramHeader.len >= 4 && r.paramHeader.len <= len(raw)
 //@   safety C03
 //@ func paramForwardTSNSupported.unmarshal
+//@   ensures#self result1 == nil ==> ifaceIs(result0, f) && f.paramHeader.len >= 4 && f.paramHeader.len <= len(raw)
 //@   safety C03
 //@ func paramHeader.unmarshal
+//@   ensures#fields result == nil ==> len(raw) >= 4 && p.len == int(specBE16(raw, 2)) && p.len >= 4 && p.len <= len(raw) && sameSlice(p.raw, raw[4:int(specBE16(raw, 2))])
+//@   modifies p.typ, p.unrecognizedAction, p.raw, p.len
+//@   tags C03 C12
 //@   safety C03
 //@ func paramHeartbeatInfo.unmarshal
+//@   ensures#self result1 == nil ==> ifaceIs(result0, h) && h.paramHeader.len >= 4 && h.paramHeader.len <= len(raw)
 //@   safety C03
 //@ func paramOutgoingResetRequest.unmarshal
+//@   ensures#self result1 == nil ==> ifaceIs(result0, r) && r.paramHeader.len >= 4 && r.paramHeader.len <= len(raw)
 //@   loop 1 invariant#idx i >= 0 && i < lim && lim == (len(r.raw)-12)/2 && len(r.raw) >= 12 && len(r.streamIdentifiers) == lim
 //@   tags C03
 //@   safety C03
 //@ func paramRandom.unmarshal
+//@   ensures#self result1 == nil ==> ifaceIs(result0, r) && r.paramHeader.len >= 4 && r.paramHeader.len <= len(raw)
 //@   safety C03
 //@ func paramReconfigResponse.unmarshal
+//@   ensures#self result1 == nil ==> ifaceIs(result0, r) && r.paramHeader.len >= 4 && r.paramHeader.len <= len(raw)
 //@   safety C03
 //@ func paramRequestedHMACAlgorithm.unmarshal
+//@   ensures#self result1 == nil ==> ifaceIs(result0, r) && r.paramHeader.len >= 4 && r.paramHeader.len <= len(raw)
 //@   loop 1 invariant#even i >= 0 && i%2 == 0 && i <= len(r.raw) && len(r.raw)%2 == 0
 //@   loop 1 decreases len(r.raw) - i
 //@   tags C03
 //@   safety C03
 //@ func paramStateCookie.unmarshal
+//@   ensures#self result1 == nil ==> ifaceIs(result0, s) && s.paramHeader.len >= 4 && s.paramHeader.len <= len(raw)
 //@   safety C03
 //@ func paramSupportedExtensions.unmarshal
+//@   ensures#self result1 == nil ==> ifaceIs(result0, s) && s.paramHeader.len >= 4 && s.paramHeader.len <= len(raw)
 //@   safety C03
 //@ func paramZeroChecksumAcceptable.unmarshal
+//@   ensures#self result1 == nil ==> ifaceIs(result0, r) && r.paramHeader.len >= 4 && r.paramHeader.len <= len(raw)
 //@   safety C03
 //@ func buildParam
 //@   safety C03
